@@ -242,7 +242,7 @@ func sweepSer(l gopacket.SerializableLayer, payload []byte, opts gopacket.Serial
 			o.err = true
 			return
 		}
-		o.out = append([]byte(nil), buf.Bytes()...)
+		o.out = sweepExact(buf.Bytes())
 	})
 	return
 }
@@ -291,7 +291,7 @@ func (r *sweepRun) serialize(l gopacket.SerializableLayer, payload []byte, src s
 			}
 			outs[k] = sweepSer(l, payload, opts, buf)
 			if p := outs[k].pan; p != nil {
-				r.fail("C07:panic", p.site, p.kind, fmt.Sprintf("type=%s;src=%s;opts=%s;buffer=%s;msg=%s", tn, src, on, names[k], p.msg))
+				r.fail("C07:panic", p.site, p.kind, fmt.Sprintf("src=%s;type=%s;opts=%s;buffer=%s;msg=%s", src, tn, on, names[k], p.msg))
 			}
 		}
 		if outs[0].pan != nil {
@@ -348,7 +348,7 @@ func (r *sweepRun) roundTrip(l gopacket.Layer, nl gopacket.NetworkLayer) {
 	}
 	tn := st.key
 	r.setPhase("C06:" + tn)
-	x := append(append([]byte(nil), l.LayerContents()...), l.LayerPayload()...)
+	x := sweepExact(append(append([]byte(nil), l.LayerContents()...), l.LayerPayload()...))
 	opts := gopacket.SerializeOptions{FixLengths: true, ComputeChecksums: true}
 	dec := func(b []byte) (sweepBytesDecoder, error, bool, *sweepPanic) {
 		v := st.ctor().(sweepBytesDecoder)
